@@ -2,6 +2,8 @@
 //! trace record per operation (for the Coq model comparator) and runs the property monitors.
 mod rt;
 mod set;
+#[cfg(feature = "par")]
+mod par;
 use griddle::hash_map::{Entry, RawEntryMut};
 use griddle::HashMap;
 use rt::*;
@@ -138,6 +140,9 @@ struct Ctx {
     abort: bool,
     tab_allocs: u64,
     tab_frees: u64,
+    // the next call's state is not compared with the model (Y) / its contents are dumped
+    skip_state_once: bool,
+    dump_once: bool,
 }
 
 const NSLOTS: usize = 4;
@@ -269,6 +274,10 @@ fn run_op(cx: &mut Ctx, spec: OpSpec, body: impl FnOnce(&mut Ctx) -> Out) -> Out
     if let Some(f) = spec.fuse {
         writeln!(cx.out, "F {}", f).unwrap();
     }
+    if cx.skip_state_once {
+        cx.skip_state_once = false;
+        writeln!(cx.out, "Y").unwrap();
+    }
     if spec.slots.iter().any(|s| cx.poisoned[*s]) {
         // the destination of an interrupted clone_from: which of the leaked clones are dropped
         // when is unspecified
@@ -305,7 +314,8 @@ fn run_op(cx: &mut Ctx, spec: OpSpec, body: impl FnOnce(&mut Ctx) -> Out) -> Out
         }
     }
     writeln!(cx.out, "L {} {} {} {} {}", c.hashes, c.allocs, c.frees, nlist(&c.dk), nlist(&c.dv)).unwrap();
-    if cx.dump_every > 0 && cx.rng.below(cx.dump_every) == 0 {
+    let dump_now = std::mem::replace(&mut cx.dump_once, false);
+    if dump_now || (cx.dump_every > 0 && cx.rng.below(cx.dump_every) == 0) {
         for &s in &spec.slots {
             if let Some(m) = cx.maps[s].as_ref() {
                 if m.len() <= 2048 {
@@ -1304,8 +1314,19 @@ fn op_clone_from(cx: &mut Ctx, d: usize, s: usize, fuse: Option<u64>) -> Out {
 }
 
 fn op_eq(cx: &mut Ctx, a: usize, b: usize) -> Out {
-    let spec = OpSpec { toks: format!("eq {} {}", a, b), kind: "eq", slots: vec![a], pslot: Some(a), fuse: None, key_adding: false, readonly: false, key: None };
-    let out = run_op(cx, spec, |cx| Out::B(cx.maps[a].as_ref().unwrap() == cx.maps[b].as_ref().unwrap()));
+    op_eq_with(cx, a, b, None)
+}
+/// == or (with a pool) rayon's par_eq: the same record, the same answer
+fn op_eq_with(cx: &mut Ctx, a: usize, b: usize, pool: Option<usize>) -> Out {
+    let spec = OpSpec { toks: format!("eq {} {}", a, b), kind: if pool.is_some() { "par_eq" } else { "eq" }, slots: vec![a], pslot: Some(a), fuse: None, key_adding: false, readonly: false, key: None };
+    let out = run_op(cx, spec, |cx| {
+        let (ma, mb) = (cx.maps[a].as_ref().unwrap(), cx.maps[b].as_ref().unwrap());
+        match pool {
+            #[cfg(feature = "par")]
+            Some(p) => Out::B(par::par_eq(ma, mb, p)),
+            _ => Out::B(ma == mb),
+        }
+    });
     if cx.monitors && !cx.poisoned[a] && !cx.poisoned[b] {
         let ra: Vec<(u64, u64)> = cx.refs[a].as_ref().unwrap().iter().map(|(k, e)| (*k, e.1)).collect();
         let rb: Vec<(u64, u64)> = cx.refs[b].as_ref().unwrap().iter().map(|(k, e)| (*k, e.1)).collect();
@@ -1746,7 +1767,7 @@ fn main() {
             continue;
         }
         let hseed = seed.wrapping_mul(1_000_003).wrapping_add(h);
-        if family == "set" {
+        if family == "set" || family == "parset" {
             // HashSet histories have their own driver (set.rs); same trace format
             let mut sx = set::SCtx {
                 sets: (0..3).map(|_| None).collect(),
@@ -1762,6 +1783,7 @@ fn main() {
                 tab_allocs: 0,
                 tab_frees: 0,
                 abort: false,
+                par: family == "parset",
             };
             let probe: griddle::HashSet<K, HB> = griddle::HashSet::with_hasher(HB { kind: 0, id: 0 });
             let r = probe.verif_state().r;
@@ -1802,6 +1824,8 @@ fn main() {
             abort: false,
             tab_allocs: 0,
             tab_frees: 0,
+            skip_state_once: false,
+            dump_once: false,
         };
         // R is read from the implementation
         let probe: Map = Map::with_hasher(HB { kind: 0, id: 0 });
